@@ -341,6 +341,13 @@ impl Database {
 
         if dirty_regions.is_empty() {
             debug!("{}: flush (no dirty)", self);
+            // A removed region leaves a zeroed metadata slot and a pending hole but no dirty
+            // region: that slot must be durable before its extent becomes reusable, otherwise a
+            // crash can bring the old metadata back on top of a region placed there since.
+            if self.layout().has_pending_holes() {
+                self.regions().flush()?;
+                self.regions().sync_data()?;
+            }
             #[cfg(anydb_verif)]
             verif_tap::pause("flush:before-promote-no-dirty");
             self.layout_mut().promote_pending_holes(self.name());
